@@ -16,7 +16,9 @@
    The primitives (AES, SHA-2/HMAC, GCM, RSA, ECDSA, flate, encoding/json) are parameters; for the
    correspondence run they are instantiated by replaying the implementation's own logged calls. *)
 From Verif Require Import Lib.Base Lib.Sx.
-From Verif Require Import Gen.Gen_josecipher.
+From Verif Require Import Gen.Gen_josecipher Gen.Gen_jose.
+From Coq Require String.
+From Coq Require Import Ascii.
 Open Scope N_scope.
 
 (* ------------------------------------------------------------------ small list helpers *)
@@ -367,6 +369,68 @@ Definition key_unwrap_g (minlen : N) (D : bytes -> bytes) (ct : bytes) : res byt
     else Ok (concat r').
 Definition key_unwrap := key_unwrap_g 24.
 
+(* ---- the Go loops as written: one index-based step per t, block r[t%n] read and written in place ---- *)
+Fixpoint set_blk (r : list bytes) (i : nat) (v : bytes) : list bytes :=
+  match r, i with
+  | [], _ => []
+  | _ :: t, O => v :: t
+  | x :: t, S k => x :: set_blk t k v
+  end.
+
+(* for t := t0; steps > 0; t++ { copy(buffer[8:], r[t%n]); Encrypt; A = buffer[:8] xor be8(t+1); r[t%n] = buffer[8:] } *)
+Fixpoint wrap_loop (E : bytes -> bytes) (n : N) (steps : nat) (t : N) (a : bytes) (r : list bytes)
+  : res (bytes * list bytes) :=
+  match steps with
+  | O => Ok (a, r)
+  | S k =>
+      let i := N.to_nat (t mod n) in
+      match nth_error r i with
+      | None => Panic 10                              (* r[t%n] out of range *)
+      | Some ri =>
+          let b := E (a ++ ri) in
+          wrap_loop E n k (t + 1) (xor_bytes (first8 b) (be8 (u64 (t + 1)))) (set_blk r i (rest8 b))
+      end
+  end.
+
+(* KeyWrap, transcribed loop for loop *)
+Definition key_wrap_loop_iv (E : bytes -> bytes) (iv cek : bytes) : res bytes :=
+  let len := lenN cek in
+  if negb (len mod 8 =? 0) then Err e_wrap else
+  let n := len / 8 in
+  let r := chunks8 (length cek) cek in
+  let* ar := wrap_loop E n (N.to_nat (6 * n)) 0 iv r in
+  Ok (fst ar ++ concat (snd ar)).
+Definition key_wrap_loop (E : bytes -> bytes) (cek : bytes) : res bytes := key_wrap_loop_iv E default_iv cek.
+
+(* for t := 6n-1; t >= 0; t-- { A ^= be8(t+1); copy(buffer[8:], r[t%n]); Decrypt; r[t%n] = buffer[8:] }
+   [t1] is t+1 *)
+Fixpoint unwrap_loop (D : bytes -> bytes) (n : N) (steps : nat) (t1 : N) (a : bytes) (r : list bytes)
+  : res (bytes * list bytes) :=
+  match steps with
+  | O => Ok (a, r)
+  | S k =>
+      let i := N.to_nat ((t1 - 1) mod n) in
+      match nth_error r i with
+      | None => Panic 11
+      | Some ri =>
+          let b := D (xor_bytes a (be8 (u64 t1)) ++ ri) in
+          unwrap_loop D n k (t1 - 1) (first8 b) (set_blk r i (rest8 b))
+      end
+  end.
+
+Definition key_unwrap_loop_g (minlen : N) (D : bytes -> bytes) (ct : bytes) : res bytes :=
+  let len := lenN ct in
+  if negb (len mod 8 =? 0) then Err e_wrap
+  else if len <? minlen then Err e_wrap_short
+  else if len =? 0 then Panic 7
+  else
+    let n := len / 8 - 1 in
+    let r := chunks8 (length ct) (rest8 ct) in
+    let* ar := unwrap_loop D n (N.to_nat (6 * n)) (6 * n) (first8 ct) r in
+    if negb (ct_eq (fst ar) default_iv) then Err e_wrap_icv
+    else Ok (concat (snd ar)).
+Definition key_unwrap_loop := key_unwrap_loop_g 24.
+
 (* ------------------------------------------------------------------ Concat KDF / ECDH-ES *)
 (* lengthPrefixed *)
 Definition len_prefixed (d : bytes) : bytes := be4 (u32 (lenN d)) ++ d.
@@ -431,6 +495,78 @@ Definition ecdsa_split (sig : bytes) (keysize : N) : res (N * N) :=
 (* newBufferFromInt: 8-byte big endian with leading zero bytes trimmed *)
 Definition buffer_from_int (e : N) : bytes := be_bytes (u64 e).
 
+(* ------------------------------------------------------------------ algorithm / key glue *)
+(* signing.go makeJWSRecipient / newVerifier dispatch on the Go type of the key; symmetric.go,
+   asymmetric.go then switch on the algorithm name.  Names come from the generated constants. *)
+Fixpoint bytes_of_string (s : String.string) : bytes :=
+  match s with String.EmptyString => [] | String.String c r => N_of_ascii c :: bytes_of_string r end.
+
+Inductive sigalg := AHS256 | AHS384 | AHS512 | ARS256 | ARS384 | ARS512
+                  | APS256 | APS384 | APS512 | AES256 | AES384 | AES512.
+
+Definition sigalg_names : list (bytes * sigalg) :=
+  [(bytes_of_string jose_HS256_str, AHS256); (bytes_of_string jose_HS384_str, AHS384);
+   (bytes_of_string jose_HS512_str, AHS512); (bytes_of_string jose_RS256_str, ARS256);
+   (bytes_of_string jose_RS384_str, ARS384); (bytes_of_string jose_RS512_str, ARS512);
+   (bytes_of_string jose_PS256_str, APS256); (bytes_of_string jose_PS384_str, APS384);
+   (bytes_of_string jose_PS512_str, APS512); (bytes_of_string jose_ES256_str, AES256);
+   (bytes_of_string jose_ES384_str, AES384); (bytes_of_string jose_ES512_str, AES512)].
+
+Fixpoint sigalg_lookup (l : list (bytes * sigalg)) (n : bytes) : option sigalg :=
+  match l with [] => None | (k, a) :: t => if bytes_eqb k n then Some a else sigalg_lookup t n end.
+Definition sigalg_of_name (n : bytes) : option sigalg := sigalg_lookup sigalg_names n.
+
+(* kind of key handed to NewSigner / Verify: []byte, *rsa.*Key, *ecdsa.*Key on a curve of [bits] bits *)
+Inductive keykind := KSym | KRsa | KEc (bits : N).
+
+Definition is_hs a := match a with AHS256 | AHS384 | AHS512 => true | _ => false end.
+Definition is_rsa_alg a := match a with ARS256 | ARS384 | ARS512 | APS256 | APS384 | APS512 => true | _ => false end.
+(* ecDecrypterSigner.signPayload: expectedBitSize *)
+Definition es_bits a : option N := match a with AES256 => Some 256 | AES384 => Some 384 | AES512 => Some 521 | _ => None end.
+(* ecEncrypterVerifier.verifyPayload: keySize *)
+Definition es_keysize a : option N := match a with AES256 => Some 32 | AES384 => Some 48 | AES512 => Some 66 | _ => None end.
+(* hash output size of the MAC (symmetricMac.hmac) *)
+Definition hs_size a : option N := match a with AHS256 => Some 32 | AHS384 => Some 48 | AHS512 => Some 64 | _ => None end.
+
+(* keyBytes := curveBits/8; if curveBits%8 > 0 { keyBytes++ } *)
+Definition ec_key_bytes (bits : N) : N := bits / 8 + (if 0 <? bits mod 8 then 1 else 0).
+
+Definition e_alg : N := 1.      (* ErrUnsupportedAlgorithm *)
+Definition e_curve : N := 2.    (* expected %d bit key, got %d bits instead / invalid signature size *)
+
+(* NewSigner + Sign: Ok (length of the signature, when the glue fixes it) *)
+Definition sign_decide (k : keykind) (name : bytes) : res N :=
+  match sigalg_of_name name with
+  | None => Err e_alg
+  | Some a =>
+      match k with
+      | KSym => match hs_size a with Some n => Ok n | None => Err e_alg end
+      | KRsa => if is_rsa_alg a then Ok 0 else Err e_alg       (* length = modulus size: not glue *)
+      | KEc bits =>
+          match es_bits a with
+          | None => Err e_alg
+          | Some want => if want =? bits then Ok (2 * ec_key_bytes bits) else Err e_curve
+          end
+      end
+  end.
+
+(* Verify: dispatch and the length check in front of the primitive.  The EC verifier checks the
+   signature length against the algorithm, not the curve of the key. *)
+Definition verify_decide (k : keykind) (name : bytes) (siglen : N) : res unit :=
+  match sigalg_of_name name with
+  | None => Err e_alg
+  | Some a =>
+      match k with
+      | KSym => if is_hs a then Ok tt else Err e_alg
+      | KRsa => if is_rsa_alg a then Ok tt else Err e_alg
+      | KEc _ =>
+          match es_keysize a with
+          | None => Err e_alg
+          | Some ks => if siglen =? 2 * ks then Ok tt else Err e_curve
+          end
+      end
+  end.
+
 (* ------------------------------------------------------------------ thumbprint templates *)
 Definition str (l : list N) : bytes := l.
 (* open-brace, quote e quote colon quote *)
@@ -480,6 +616,260 @@ Definition jwe_decrypt (unwrapk : bytes -> res bytes) (open : bytes -> bytes -> 
   | Err _ => Err e_crypto
   | Panic s => Panic s
   end.
+
+(* key management of dir (symmetricKeyCipher.decryptKey, DIRECT) and of ECDH-ES direct key
+   agreement: the content key does not travel, and the encrypted key member must be empty *)
+Definition unwrap_direct (cek ek : bytes) : res bytes := if is_nil ek then Ok cek else Err e_crypto.
+
+(* ------------------------------------------------------------------ JSON serializations *)
+(* encoding/json is not modelled.  A JSON text is abstracted to the object the raw structs see:
+   members as an association list.  Values are strings, (unprotected) header objects, or arrays
+   of inner objects (the entries of "signatures" / "recipients").  The two directions of
+   encoding/json are parameters (Section variables with a round-trip hypothesis) in the proofs. *)
+
+(* rawHeader: field name -> value; an absent field is the Go zero value (empty) *)
+Definition header := list (bytes * bytes).
+Fixpoint hget (h : header) (k : bytes) : bytes :=
+  match h with [] => [] | (k', v) :: t => if bytes_eqb k' k then v else hget t k end.
+
+Definition n_alg : bytes := [97; 108; 103].
+Definition n_enc : bytes := [101; 110; 99].
+Definition n_zip : bytes := [122; 105; 112].
+Definition n_crit : bytes := [99; 114; 105; 116].
+Definition n_apu : bytes := [97; 112; 117].
+Definition n_apv : bytes := [97; 112; 118].
+Definition n_epk : bytes := [101; 112; 107].
+Definition n_iv : bytes := [105; 118].
+Definition n_tag : bytes := [116; 97; 103].
+Definition n_kid : bytes := [107; 105; 100].
+Definition n_jwk : bytes := [106; 119; 107].
+Definition n_nonce : bytes := [110; 111; 110; 99; 101].
+Definition hdr_fields : list bytes :=
+  [n_alg; n_enc; n_zip; n_crit; n_apu; n_apv; n_epk; n_iv; n_tag; n_kid; n_jwk; n_nonce].
+
+(* (dst *rawHeader).merge(src): every field keeps dst's value unless that is the zero value *)
+Definition merge (dst src : header) : header :=
+  map (fun k => (k, let d := hget dst k in if is_nil d then hget src k else d)) hdr_fields.
+Definition merge_opt (dst : header) (src : option header) : header :=
+  match src with None => dst | Some h => merge dst h end.
+(* mergedHeaders: out := rawHeader{}; out.merge(protected); out.merge(unprotected); [out.merge(recipient)] *)
+Definition merged (hs : list (option header)) : header := fold_left merge_opt hs [].
+
+Inductive jleaf := LStr (s : bytes) | LHdr (h : header).
+Definition jobj1 := list (bytes * jleaf).
+Inductive jmem := MStr (s : bytes) | MHdr (h : header) | MArr (items : list jobj1).
+Definition jobj := list (bytes * jmem).
+
+Fixpoint jfind {A} (o : list (bytes * A)) (k : bytes) : option A :=
+  match o with [] => None | (k', v) :: t => if bytes_eqb k' k then Some v else jfind t k end.
+Definition jstr (o : jobj) k : option bytes := match jfind o k with Some (MStr s) => Some s | _ => None end.
+Definition jhdr (o : jobj) k : option header := match jfind o k with Some (MHdr h) => Some h | _ => None end.
+Definition jarr (o : jobj) k : list jobj1 := match jfind o k with Some (MArr l) => l | _ => [] end.
+Definition jstr1 (o : jobj1) k : option bytes := match jfind o k with Some (LStr s) => Some s | _ => None end.
+Definition jhdr1 (o : jobj1) k : option header := match jfind o k with Some (LHdr h) => Some h | _ => None end.
+
+Definition n_payload : bytes := [112; 97; 121; 108; 111; 97; 100].
+Definition n_protected : bytes := [112; 114; 111; 116; 101; 99; 116; 101; 100].
+Definition n_unprotected : bytes := [117; 110; 112; 114; 111; 116; 101; 99; 116; 101; 100].
+Definition n_header : bytes := [104; 101; 97; 100; 101; 114].
+Definition n_signature : bytes := [115; 105; 103; 110; 97; 116; 117; 114; 101].
+Definition n_signatures : bytes := [115; 105; 103; 110; 97; 116; 117; 114; 101; 115].
+Definition n_recipients : bytes := [114; 101; 99; 105; 112; 105; 101; 110; 116; 115].
+Definition n_encrypted_key : bytes := [101; 110; 99; 114; 121; 112; 116; 101; 100; 95; 107; 101; 121].
+Definition n_ciphertext : bytes := [99; 105; 112; 104; 101; 114; 116; 101; 120; 116].
+Definition n_aad : bytes := [97; 97; 100].
+
+Definition e_missing : N := 7.
+Definition e_nonce : N := 6.
+
+(* byteBuffer.UnmarshalJSON + bytes(): an absent member and the empty string both give no bytes *)
+Definition decode_member (m : option bytes) : res bytes :=
+  match m with
+  | None => Ok []
+  | Some s => if is_nil s then Ok [] else b64url_decode_r s
+  end.
+
+Definition has_nonce (h : option header) : bool :=
+  match h with Some x => negb (is_nil (hget x n_nonce)) | None => false end.
+
+Definition opt_member {A} (k : bytes) (present : bool) (v : A) : list (bytes * A) :=
+  if present then [(k, v)] else [].
+
+(* ---- JWS ---- *)
+(* one signature of an object in memory: serialized protected header (empty = none) with its
+   struct value, optional unprotected header, signature *)
+Record jsig := { se_prot : bytes; se_ph : header; se_hdr : option header; se_sig : bytes }.
+Record jws_obj := { jo_payload : bytes; jo_sigs : list jsig }.
+
+Definition sig_members (s : jsig) : jobj1 :=
+  opt_member n_protected (negb (is_nil (se_prot s))) (LStr (b64url_encode (se_prot s))) ++
+  match se_hdr s with None => [] | Some h => [(n_header, LHdr h)] end ++
+  [(n_signature, LStr (b64url_encode (se_sig s)))].
+
+Definition lift_leaf (m : bytes * jleaf) : bytes * jmem :=
+  match m with (k, LStr s) => (k, MStr s) | (k, LHdr h) => (k, MHdr h) end.
+
+(* JsonWebSignature.FullSerialize: one signature -> flattened, otherwise general *)
+Definition jws_full (o : jws_obj) : jobj :=
+  (n_payload, MStr (b64url_encode (jo_payload o))) ::
+  match jo_sigs o with
+  | [s] => map lift_leaf (sig_members s)
+  | sigs => [(n_signatures, MArr (map sig_members sigs))]
+  end.
+
+(* a signature after parsing: protected bytes as received, their parsed value, unprotected header *)
+Record psig := { ps_prot : bytes; ps_phdr : option header; ps_hdr : option header; ps_sig : bytes }.
+
+Definition parse_sig (hdr_dec : bytes -> option header)
+           (prot : option bytes) (hdr : option header) (sig : option bytes) : res psig :=
+  let* pb := decode_member prot in
+  let* ph := (if is_nil pb then Ok None
+              else match hdr_dec pb with Some h => Ok (Some h) | None => Err e_json end) in
+  if has_nonce hdr then Err e_nonce else
+  let* sb := decode_member sig in
+  Ok {| ps_prot := pb; ps_phdr := ph; ps_hdr := hdr; ps_sig := sb |}.
+
+Fixpoint map_res {A B} (f : A -> res B) (l : list A) : res (list B) :=
+  match l with
+  | [] => Ok []
+  | x :: t => let* y := f x in let* r := map_res f t in Ok (y :: r)
+  end.
+
+(* rawJsonWebSignature.sanitized, on the object encoding/json produced *)
+Definition parse_jws_full (hdr_dec : bytes -> option header) (o : jobj) : res (bytes * list psig) :=
+  match jstr o n_payload with
+  | None => Err e_missing
+  | Some p =>
+      let* payload := decode_member (Some p) in
+      match jarr o n_signatures with
+      | [] => let* s := parse_sig hdr_dec (jstr o n_protected) (jhdr o n_header) (jstr o n_signature) in
+              Ok (payload, [s])
+      | items =>
+          let* ss := map_res (fun it => parse_sig hdr_dec (jstr1 it n_protected) (jhdr1 it n_header)
+                                                  (jstr1 it n_signature)) items in
+          Ok (payload, ss)
+      end
+  end.
+
+(* ParseSigned: white space stripped from the whole text, '{' selects the JSON path *)
+Definition parse_signed_json (json_dec : bytes -> option jobj) (hdr_dec : bytes -> option header)
+           (input : bytes) : res (bytes * list psig) :=
+  let s := strip_ws input in
+  if starts_with_brace s then
+    match json_dec s with Some o => parse_jws_full hdr_dec o | None => Err e_json end
+  else Err e_notcompact.
+
+Definition psig_merged (s : psig) : header := merged [ps_phdr s; ps_hdr s].
+
+(* Verify: signatures with a crit header are skipped; the first one that verifies wins; the
+   algorithm is the merged header's (protected first) *)
+Fixpoint jws_verify_multi (verify : bytes -> bytes -> bytes -> bool) (payload : bytes) (sigs : list psig)
+  : res bytes :=
+  match sigs with
+  | [] => Err e_crypto
+  | s :: t =>
+      if negb (is_nil (hget (psig_merged s) n_crit)) then jws_verify_multi verify payload t
+      else if verify (hget (psig_merged s) n_alg) (signing_input (ps_prot s) payload) (ps_sig s)
+           then Ok payload
+           else jws_verify_multi verify payload t
+  end.
+
+(* ---- JWE ---- *)
+Record jrecip := { rc_hdr : option header; rc_key : bytes }.
+Record jwe_obj := { eo_prot : bytes; eo_ph : header; eo_unprot : option header; eo_recips : list jrecip;
+                    eo_aad : bytes; eo_iv : bytes; eo_ct : bytes; eo_tag : bytes }.
+
+Definition recip_members (r : jrecip) : jobj1 :=
+  match rc_hdr r with None => [] | Some h => [(n_header, LHdr h)] end ++
+  opt_member n_encrypted_key (negb (is_nil (rc_key r))) (LStr (b64url_encode (rc_key r))).
+
+(* JsonWebEncryption.FullSerialize.  As in the code, the encrypted key of recipient 0 is also
+   written at the top level in the general serialization (the parser ignores it there). *)
+Definition jwe_full (o : jwe_obj) : jobj :=
+  opt_member n_protected (negb (is_nil (eo_prot o))) (MStr (b64url_encode (eo_prot o))) ++
+  match eo_unprot o with None => [] | Some h => [(n_unprotected, MHdr h)] end ++
+  [(n_iv, MStr (b64url_encode (eo_iv o))); (n_ciphertext, MStr (b64url_encode (eo_ct o)));
+   (n_tag, MStr (b64url_encode (eo_tag o)))] ++
+  opt_member n_aad (negb (is_nil (eo_aad o))) (MStr (b64url_encode (eo_aad o))) ++
+  match eo_recips o with
+  | [r] => map lift_leaf (recip_members r)
+  | rs => opt_member n_encrypted_key (negb (is_nil (match rs with r :: _ => rc_key r | [] => [] end)))
+                     (MStr (b64url_encode (match rs with r :: _ => rc_key r | [] => [] end))) ++
+          [(n_recipients, MArr (map recip_members rs))]
+  end.
+
+Record pjwe := { pe_prot : bytes; pe_phdr : option header; pe_unprot : option header;
+                 pe_recips : list jrecip; pe_aad : bytes; pe_iv : bytes; pe_ct : bytes; pe_tag : bytes }.
+
+Definition parse_recip (it : jobj1) : res jrecip :=
+  let* k := decode_member (jstr1 it n_encrypted_key) in
+  if has_nonce (jhdr1 it n_header) then Err e_nonce
+  else Ok {| rc_hdr := jhdr1 it n_header; rc_key := k |}.
+
+Definition recip_ok (ph unprot : option header) (r : jrecip) : bool :=
+  let m := merged [ph; unprot; rc_hdr r] in negb (is_nil (hget m n_alg)) && negb (is_nil (hget m n_enc)).
+
+(* rawJsonWebEncryption.sanitized *)
+Definition parse_jwe_full (hdr_dec : bytes -> option header) (o : jobj) : res pjwe :=
+  if has_nonce (jhdr o n_unprotected) || has_nonce (jhdr o n_header) then Err e_nonce else
+  let* pb := decode_member (jstr o n_protected) in
+  let* ph := (if is_nil pb then Ok None
+              else match hdr_dec pb with Some h => Ok (Some h) | None => Err e_json end) in
+  let* rs := match jarr o n_recipients with
+             | [] => let* k := decode_member (jstr o n_encrypted_key) in
+                     Ok [{| rc_hdr := jhdr o n_header; rc_key := k |}]
+             | items => map_res parse_recip items
+             end in
+  if negb (forallb (recip_ok ph (jhdr o n_unprotected)) rs) then Err e_hdr else
+  let* iv := decode_member (jstr o n_iv) in
+  let* ct := decode_member (jstr o n_ciphertext) in
+  let* tag := decode_member (jstr o n_tag) in
+  let* aad := decode_member (jstr o n_aad) in
+  Ok {| pe_prot := pb; pe_phdr := ph; pe_unprot := jhdr o n_unprotected; pe_recips := rs;
+        pe_aad := aad; pe_iv := iv; pe_ct := ct; pe_tag := tag |}.
+
+Definition parse_encrypted_json (json_dec : bytes -> option jobj) (hdr_dec : bytes -> option header)
+           (input : bytes) : res pjwe :=
+  let s := strip_ws input in
+  if starts_with_brace s then
+    match json_dec s with Some o => parse_jwe_full hdr_dec o | None => Err e_json end
+  else Err e_notcompact.
+
+(* the AAD the decrypter computes from a parsed object *)
+Definition pjwe_aad (p : pjwe) : bytes :=
+  aad_input (pe_prot p) (if is_nil (pe_aad p) then None else Some (pe_aad p)).
+
+(* Decrypt: recipients are tried in order, the first whose key unwraps and whose content opens wins;
+   [unwrapk alg ek] is key management under the caller's key for the merged header's algorithm *)
+Fixpoint jwe_decrypt_multi (unwrapk : bytes -> bytes -> res bytes)
+           (open : bytes -> bytes -> bytes -> bytes -> res bytes) (ns : N) (p : pjwe) (rs : list jrecip)
+  : res bytes :=
+  match rs with
+  | [] => Err e_crypto
+  | r :: t =>
+      let alg := hget (merged [pe_phdr p; pe_unprot p; rc_hdr r]) n_alg in
+      match unwrapk alg (rc_key r) with
+      | Ok cek =>
+          match aead_decrypt ns (open cek) (pe_iv p) (pe_ct p) (pe_tag p) (pjwe_aad p) with
+          | Ok pt => Ok pt
+          | Err _ => jwe_decrypt_multi unwrapk open ns p t
+          | Panic s => Panic s
+          end
+      | Err _ => jwe_decrypt_multi unwrapk open ns p t
+      | Panic s => Panic s
+      end
+  end.
+
+(* ---- ACME (https/acme/jws.go, crypto.go) ---- *)
+(* signContent: NewSigner(alg by key type) with the account key, nonce source = the client; Sign puts
+   alg, the embedded jwk and the nonce into the PROTECTED header; post() sends FullSerialize.
+   [hdr_enc]: encoding/json of the header struct. *)
+Definition acme_header (alg jwk nonce : bytes) : header := [(n_alg, alg); (n_jwk, jwk); (n_nonce, nonce)].
+Definition acme_request (hdr_enc : header -> bytes) (sign : bytes -> bytes) (alg jwk nonce content : bytes) : jws_obj :=
+  let h := acme_header alg jwk nonce in
+  let pb := hdr_enc h in
+  {| jo_payload := content;
+     jo_sigs := [{| se_prot := pb; se_ph := h; se_hdr := None; se_sig := sign (signing_input pb content) |}] |}.
 
 (* ------------------------------------------------------------------ harness interface *)
 (* association list replay of a logged block function / hash *)
@@ -549,7 +939,13 @@ Definition jwe_of_b64 (p k i c t : bytes) : res jwe_fields :=
    (16 e n)                       rsaThumbprintInput              -> (0 text)
    (17 crv x y size)              ecThumbprintInput               -> (0 text) | (2)
    (18 token thumb)               acme key authorization          -> (0 text)
-   (19 iv noncesize)              aeadContentCipher.decrypt guard -> (0) reaches Open | (1 1)     *)
+   (19 iv noncesize)              aeadContentCipher.decrypt guard -> (0) reaches Open | (1 1)
+   (21 keykind algname)           NewSigner+Sign glue: keykind 0 []byte, 1 RSA, else EC curve bits
+                                                                  -> (0 siglen) | (1 1) | (1 2)
+   (22 keykind algname siglen)    Verify glue                     -> (0) | (1 1) | (1 2)          *)
+Definition keykind_of_z (z : Z) : keykind :=
+  if Z.eqb z 0 then KSym else if Z.eqb z 1 then KRsa else KEc (z2n z).
+
 Definition run_c16 (c : sx) : sx :=
   match c with
   | SL (SZ 1 :: SB d :: _) => s_ok [SB (b64url_encode d)]
@@ -571,9 +967,9 @@ Definition run_c16 (c : sx) : sx :=
   | SL (SZ 7 :: SB b :: SZ bs :: _) => s_ok [SB (pad_buffer b (z2n bs))]
   | SL (SZ 8 :: SB b :: SZ bs :: _) => obs_res (let* o := unpad_buffer b (z2n bs) in Ok [SB o])
   | SL (SZ 9 :: SB cek :: SL log :: _) =>
-      obs_res (let* o := key_wrap (assoc_bytes (log_of_sx log)) cek in Ok [SB o])
+      obs_res (let* o := key_wrap_loop (assoc_bytes (log_of_sx log)) cek in Ok [SB o])
   | SL (SZ 10 :: SB ct :: SL log :: _) =>
-      obs_res (let* o := key_unwrap (assoc_bytes (log_of_sx log)) ct in Ok [SB o])
+      obs_res (let* o := key_unwrap_loop (assoc_bytes (log_of_sx log)) ct in Ok [SB o])
   | SL (SZ 11 :: SB aad :: SB iv :: SB ct :: SB mac :: SZ tb :: _) =>
       obs_res (let* t := tag_of mac (z2n tb) in Ok [SB (mac_input aad iv ct); SB t])
   | SL (SZ 12 :: SB z :: SB alg :: SB apu :: SB apv :: SZ size :: SZ hl :: SL log :: _) =>
@@ -588,6 +984,10 @@ Definition run_c16 (c : sx) : sx :=
   | SL (SZ 17 :: SB crv :: SZ x :: SZ y :: SZ size :: _) =>
       obs_res (let* o := ec_thumb_input crv (z2n x) (z2n y) (z2n size) in Ok [SB o])
   | SL (SZ 18 :: SB token :: SB thumb :: _) => s_ok [SB (key_authorization token thumb)]
+  | SL (SZ 21 :: SZ kk :: SB name :: _) =>
+      obs_res (let* n := sign_decide (keykind_of_z kk) name in Ok [sN n])
+  | SL (SZ 22 :: SZ kk :: SB name :: SZ sl :: _) =>
+      obs_res (let* _ := verify_decide (keykind_of_z kk) name (z2n sl) in Ok [])
   | SL (SZ 19 :: SB iv :: SZ ns :: _) =>
       obs_res (let* _ := aead_decrypt (z2n ns) (fun _ _ _ => Ok []) iv [] [] [] in Ok [])
   | _ => bad_case
